@@ -97,3 +97,45 @@ def np_mean_std_havoc():
         return r
 
     return NpShim(mean=mean, std=std)
+
+
+def keyof(obj):
+    """Canonical, hashable description of a stub argument (content, not identity);
+    proxies are described by their simplified term."""
+    import pandas as pd
+
+    if isinstance(obj, (Sym, SymBool)):
+        return ("sym", z3.simplify(obj.z).sexpr())
+    if isinstance(obj, (pd.DataFrame, pd.Series)):
+        return ("pd", keyof(obj.to_numpy()))
+    if isinstance(obj, np.ndarray):
+        return ("arr", obj.shape, tuple(keyof(e) for e in obj.reshape(-1)))
+    if isinstance(obj, (list, tuple)):
+        return ("seq", tuple(keyof(e) for e in obj))
+    if isinstance(obj, dict):
+        return ("dict", tuple((keyof(k), keyof(v)) for k, v in obj.items()))
+    if isinstance(obj, (np.floating, float)):
+        return ("f", float(obj))
+    if isinstance(obj, (np.integer, int, bool, np.bool_)):
+        return ("i", int(obj))
+    if obj is None or isinstance(obj, str):
+        return obj
+    return ("obj", repr(obj))
+
+
+class Memo:
+    """Deterministic stub results: the same arguments give the same fresh
+    symbol (an uninterpreted function of the argument *contents*), so that two
+    runs that pass equal arguments observe equal library results -- 'the same
+    seed schedule' of the relational properties."""
+
+    def __init__(self):
+        self.table = {}
+        self.calls = []
+
+    def get(self, fname, args, make):
+        k = (fname, keyof(args))
+        if k not in self.table:
+            self.table[k] = make()
+        self.calls.append((fname, args, self.table[k]))
+        return self.table[k]
